@@ -55,6 +55,10 @@ def gen_expr(rng: random.Random, pool, p_invalid: float = 0.0, p_soll: float = 0
         if rng.random() < 0.1:
             # packages in every legal spelling: plain, with repeatability, with blanks inside the brackets, twice in one expression
             return rng.choice(["[7P]", "[7P] U [5]", "[8P][901]", "[7P0..1]", "[7P 1..2] U [5]", "[ 8P ][901]", "[8P2..3] O [7P]", "[7P] U [8P] U [7P]", "[ 7P 0..3 ]"])
+        if rng.random() < 0.08:
+            # unfulfilled and still carrying a hint: an exclusive or of two fulfilled branches, one of them with a hint (a forbidden node with a hint)
+            a, b = rng.sample(["1", "2", "3", "4"], 2)
+            return rng.choice([f"([{a}] U [501]) X [{b}]", f"[{b}] X ([{a}] U [502])", f"([{a}] U [501]) X ([{b}] U [502])"])
         return T.render(rng.choice(pool), T.Style(rng, "min", "upper", "one")).strip()
 
     if rng.random() < p_invalid:
